@@ -162,15 +162,15 @@ theorem scriptHolds_single (f : Selector → Bool) (s : Selector) (op : ScriptOp
   cases op <;> simp [scriptHolds, groups]
 
 section
-variable (o : Oracles) (ao : AggOracles) (hp : PermInv ao) (c : Ctx) (d : TraceDb) (hr : c.rndMax = 0) (hcons : DurConsistent d)
-include hp hr hcons
+variable (o : Oracles) (ao : AggOracles) (hp : PermInv ao) (c : Ctx) (d : TraceDb) (hcons : DurConsistent (d.seen o c))
+include hp hcons
 
 theorem simple_traceSel (pfx : String) (s : Selector) (op : ScriptOp) (rest : Script) (X : Sel)
     (h : simpleSel c pfx ((s, op) :: rest) = .ok X) (hs : SelOk s) :
-    TraceSel o ao (d.toDb c) X (fun tr => selMatches o ao c d s tr = true) := by
-  obtain ⟨e, he, _, _⟩ := hs.attrs
-  obtain ⟨es, _, hX⟩ := simpleSel_shape c pfx s op rest X e h he hr
-  refine ⟨fun extra env => simple_traceRows o ao hp c d hr hcons pfx s op rest X h hs extra env, ?_, ?_⟩
+    TraceSel o ao (d.toDb c) X (fun tr => selMatches o ao c (d.seen o c) s tr = true) := by
+  obtain ⟨e, he, _⟩ := hs.attrs
+  obtain ⟨es, _, _, hX⟩ := simpleSel_shape c pfx s op rest X e h he
+  refine ⟨fun extra env => simple_traceRows o ao hp c d hcons pfx s op rest X h hs extra env, ?_, ?_⟩
   · rcases hX with ⟨_, rfl⟩ | ⟨a, f, v, _, _, _, _, rfl⟩ <;> exact Or.inr ⟨_, _, rfl⟩
   · intro extra env
     rcases hX with ⟨_, rfl⟩ | ⟨a, f, v, _, _, _, _, rfl⟩ <;>
@@ -180,11 +180,11 @@ theorem simple_traceSel (pfx : String) (s : Selector) (op : ScriptOp) (rest : Sc
 
 theorem tree_traceSel : ∀ (t : XTree) (X : Sel), treeSel c t = .ok X →
     (∀ sc ∈ t.leaves, ∃ s op rest, sc = (s, op) :: rest ∧ SelOk s) →
-    TraceSel o ao (d.toDb c) X (fun tr => treeHolds (fun s => selMatches o ao c d s tr) t = true)
+    TraceSel o ao (d.toDb c) X (fun tr => treeHolds (fun s => selMatches o ao c (d.seen o c) s tr) t = true)
   | .simple script k, X, h, hl => by
     obtain ⟨s, op, rest, rfl, hs⟩ := hl script (by simp [XTree.leaves])
     simp only [treeSel] at h
-    exact (simple_traceSel o ao hp c d hr hcons _ s op rest X h hs).congr (fun tr => by simp [treeHolds, headHolds])
+    exact (simple_traceSel o ao hp c d hcons _ s op rest X h hs).congr (fun tr => by simp [treeHolds, headHolds])
   | .complex isAnd k l r, X, h, hl => by
     simp only [treeSel, bind, Except.bind] at h
     cases hls : treeSel c l with
@@ -203,13 +203,13 @@ theorem tree_traceSel : ∀ (t : XTree) (X : Sel), treeSel c t = .ok X →
 
 /-- **the whole script**: the root select returns one row per trace the script describes -/
 theorem root_traceSel (script : Script) (X : Sel) (h : rootSel c script = .ok X) (hok : ∀ p ∈ script, SelOk p.1) :
-    TraceSel o ao (d.toDb c) X (fun tr => traceMatches o ao c d script tr = true) := by
+    TraceSel o ao (d.toDb c) X (fun tr => traceMatches o ao c (d.seen o c) script tr = true) := by
   unfold traceMatches
   match script, h, hok with
   | [], h, _ => simp [rootSel] at h
   | [(s, op)], h, hok =>
     simp only [rootSel] at h
-    exact (simple_traceSel o ao hp c d hr hcons "" s op [] X h (hok (s, op) (by simp))).congr
+    exact (simple_traceSel o ao hp c d hcons "" s op [] X h (hok (s, op) (by simp))).congr
       (fun tr => by rw [scriptHolds_single])
   | p1 :: p2 :: rest, h, hok =>
     simp only [rootSel, planTree, bind, Except.bind] at h
@@ -224,10 +224,10 @@ theorem root_traceSel (script : Script) (X : Sel) (h : rootSel c script = .ok X)
         · obtain ⟨s, op, rest', e1, e2⟩ := h4 g hg' sc hscg
           exact ⟨s, op, rest', e1, hok (s, op) e2⟩
         · simp at hl
-      refine (tree_traceSel o ao hp c d hr hcons (orFold 0 none gs) X h hleaves).congr ?_
+      refine (tree_traceSel o ao hp c d hcons (orFold 0 none gs) X h hleaves).congr ?_
       intro tr
-      obtain ⟨e1, _, _, _⟩ := groupsS_spec (fun s => selMatches o ao c d s tr) (p1 :: p2 :: rest) gs hg
-      rw [(orFold_spec (fun s => selMatches o ao c d s tr) gs 0 none h3 h2).1]
+      obtain ⟨e1, _, _, _⟩ := groupsS_spec (fun s => selMatches o ao c (d.seen o c) s tr) (p1 :: p2 :: rest) gs hg
+      rw [(orFold_spec (fun s => selMatches o ao c (d.seen o c) s tr) gs 0 none h3 h2).1]
       simp only [Bool.false_or, scriptHolds]
       have : ∀ (ll : List (List Bool)), ll.any (fun bs => bs.all id) = ll.any (fun bs => bs.all id) := fun _ => rfl
       have e2 := congrArg (fun ll : List (List Bool) => ll.any (fun bs => bs.all id)) e1
